@@ -165,4 +165,33 @@ def run (fx : Bool) (c : Cfg) : R → List Label → R × List Ev
     let (r'', es) := run fx c r' ls
     (r'', (match e with | some e => [e] | none => []) ++ es)
 
+/-! ### n peer addresses
+
+  The real reconnector keeps one `reconnectState` per address in `states` and ONE `paused` / `closed`
+  flag.  The system model gives every address its own `R` (with its own copy of the two flags);
+  an address-level call (Schedule(a), expiry of a timer of a, return of a callback of a, Cancel(a))
+  steps only that component, a reconnector-level call (Pause, Resume, ResetAll, Stop — one critical
+  section that loops over all states) steps every component.  Props/C31.lean proves that the copies
+  of the flags always agree (so the product IS a system with one shared flag) and that every
+  component on its own is a run of the single-address LTS. -/
+
+abbrev Sys := Nat → R
+
+def Label.isGlobal : Label → Bool
+  | .pause | .resume | .resetAll | .stop => true
+  | _ => false
+
+inductive SysLabel where
+  | at (a : Nat) (l : Label)
+  | all (l : Label)
+  deriving DecidableEq, Repr
+
+def SysLabel.wf : SysLabel → Bool
+  | .at _ l => !l.isGlobal
+  | .all l => l.isGlobal
+
+def sysStep (c : Cfg) (s : Sys) : SysLabel → Sys × Option (Nat × Ev)
+  | .at a l => (fun b => if b = a then (step true c (s a) l).1 else s b, ((step true c (s a) l).2).map (fun e => (a, e)))
+  | .all l => (fun b => (step true c (s b) l).1, none)
+
 end MM.C31
